@@ -1,4 +1,4 @@
 SPECIFICATION SSpec
-CONSTANT Big = FALSE
+CONSTANT Big = FALSE Wide = FALSE
 INVARIANTS Inv AddableIff
 CHECK_DEADLOCK FALSE
